@@ -64,6 +64,7 @@ fn alphabet() -> Vec<Op> {
         Op::Set(0, 1.5),
         Op::Rec(0, 1.0),
         Op::Rec(0, 2.0),
+        Op::Rec(0, f64::NAN),
         Op::Snapshot,
     ]
 }
